@@ -27,6 +27,7 @@ DECIDED = [
     "R-C13-VALIDATE: Connection.__post_init__ probes the results broker's bucket class against ResultBucketT",
     "R-C13-VALIDATE (config): Connection._update_from_config gives each broker the Config class of its own role (results broker <- RESULT_BUCKET)",
     "R-C13-FIELDS (uncached): Job.result asks the results broker on every read; R-C13-LAZY (writers): the lazy slot is written only by set_result / set_exception; R-C13-ORDER (race): no second terminal action after a failed result store",
+    "R-C13-FIELDS (round 5): the in-memory bucket storage is created per broker object in __init__ (a class-body dict is shared by args and result brokers); every job without an explicit result id gets its own (no eager default)",
 ]
 NOT_DECIDED = ["bucket content across retry chains as a value (follows from same-id overwrite)", "bucket TTL expiry timing"]
 ASSUMPTIONS = ["store_bucket under an existing id overwrites (both bucket brokers: dict assignment / Redis SET)"]
@@ -51,6 +52,10 @@ def run(ctx: Ctx) -> None:
     lazy_slot_writers(ctx, "R-C13-LAZY")
     validate(ctx)
     config_buckets(ctx)
+    from .shared import fresh_defaults
+
+    with ctx.as_rule("R-C13-FIELDS"):
+        fresh_defaults(ctx, "R-C13-FIELDS")  # "the bucket under the job's result id": every job without an explicit result id gets its own, not one computed at import time
 
 
 def order(ctx: Ctx, rule="R-C13-ORDER") -> None:
@@ -377,6 +382,14 @@ def bucket_brokers(ctx: Ctx, rule="R-C13-FIELDS") -> None:
     stores = [dotted(t) for n in ast.walk(init0.node) if isinstance(n, (ast.Assign, ast.AnnAssign)) and n.value is not None
               and ((isinstance(n.value, ast.Dict) and not n.value.keys) or (isinstance(n.value, ast.Call) and dotted(n.value.func) == "dict" and not n.value.args))
               for t in (n.targets if isinstance(n, ast.Assign) else [n.target]) if (dotted(t) or "").startswith("self.")]
+    if not stores:
+        # not created in __init__: a class-body dict is one object shared by every broker (args and result brokers overwrite each other) - reported, then analysed as the storage
+        c0 = ctx.prog.classes[im]
+        shared_ = [k for k, v in c0.attrs.items() if isinstance(v, ast.Dict) or (isinstance(v, ast.Call) and dotted(v.func) == "dict")]
+        ctx.check(not shared_, rule, init0, "in-memory bucket storage is per broker object", "self.<storage> = {} in __init__",
+                  f"the in-memory bucket storage {shared_} is a class-body dict shared by every InMemoryBucketBroker: the args broker and the result broker (and other connections) overwrite each "
+                  "other's buckets, so the bucket under a result id need not hold that execution's outcome", instance="in-memory storage per instance")
+        stores = ["self." + k for k in shared_[:1]]
     ctx.require(len(stores) == 1, f"{im}.__init__: the bucket storage dict not found (candidates {stores})")
     S = stores[0]
     st = ctx.func(f"{im}.store_bucket")
